@@ -6,9 +6,11 @@ from common import sh2
 
 LEVEL = "proof"
 MANIFEST = {
-    "technique": "Coq proof over a hand-written Gallina transcription of avc/annexb.go, avc/nalus.go, avc/avc.go, "
-                 "hevc/annexb.go, hevc/hevc.go + differential correspondence (extracted OCaml vs Go, hook-exported "
-                 "scanner) + failing-input search with oracles written over the generating NAL unit list",
+    "technique": "Coq proof over hand-written Gallina transcriptions of avc/annexb.go, avc/nalus.go, avc/avc.go, "
+                 "hevc/annexb.go, hevc/hevc.go (the hevc helpers transcribed a second time, from the hevc text alone) "
+                 "+ differential correspondence (extracted OCaml vs Go, hook-exported scanner) + failing-input search "
+                 "with oracles written over the generating NAL unit list; the check itself mutation-tested with 36 "
+                 "code changes (reports/C14.md)",
     "level_text": "Theorems (coq/c14/C14Theorems.v), all unbounded and closed under the global context: "
                   "C14_has_zero_byte (the hasZeroByte word trick = 'some byte of the word is zero' for every 8-byte word, "
                   "little- and big-endian load, by a byte-wise borrow-chain induction); C14_scanner_eq_naive (the "
@@ -21,13 +23,28 @@ MANIFEST = {
                   "GetParameterSets = the obvious list functions of the unit list); C14_byte_stream_loop_events and "
                   "C14_helpers_stream (ExtractNalusFromByteStream, GetFirstAVCVideoNALUFromByteStream, "
                   "GetParameterSetsFromByteStream and ExtractNalusOfTypeFromByteStream for AVC and HEVC, on the text after "
-                  "the two fix commits). The model is tied to /repo on every run by running it (extracted) against the "
-                  "real functions.",
+                  "the two fix commits). HEVC, own transcription (coq/c14/C14HevcModel.v, one Fixpoint per Go loop of "
+                  "hevc/hevc.go and hevc/annexb.go; this is the model the correspondence runs against the hevc package): "
+                  "C14_hevc_transcriptions_agree (on EVERY byte string, malformed included, the nine hevc entry points "
+                  "compute what the shared-loop instantiations compute); C14_hevc_header_type (nal_unit_type = bits 14..9 "
+                  "of the TWO-byte HEVC NAL header = GetNaluType of the first byte); C14_helpers_hevc_units_sample "
+                  "(GetNalusFromSample, FindNaluTypes, FindNaluTypesUpToFirstVideoNalu, ContainsNaluType, IsRAPSample "
+                  "16..23, IsIDRSample 19..20, HasParameterSets incl. VPS, GetParameterSets incl. VPS, duplicates kept, "
+                  "sets after the first VCL unit ignored) and C14_helpers_hevc_units_stream (ExtractNalusFromByteStream, "
+                  "hevc.GetParameterSetsFromByteStream, hevc.ExtractNalusOfTypeFromByteStream with/without stopAtVideo) "
+                  "for EVERY list of units carrying a two-byte header, against list functions written over the header's "
+                  "type field. Explored only (search, no theorem): units of 64 KiB and 16 MiB through the real code. "
+                  "The models are tied to /repo on every run by running them (extracted) against the real functions.",
     "level_note": "Trusted: Coq kernel, extraction (ExtrOcamlBasic), OCaml/Go glue, and the correspondence being only as "
                   "good as its generated inputs (every {00,01,xx} pattern at every offset of word-crossing backgrounds, "
-                  "unit-list streams, mutated streams). The 8-byte load through unsafe.Pointer is modelled as the "
-                  "little-endian value of 8 in-range bytes (a load past the slice end is a model Panic, proved not to "
-                  "happen); Go int is an unbounded Z (lengths < 2^62); slices have cap = len.",
+                  "unit-list streams incl. parameter-set-heavy lists and every type-test boundary, mutated streams; the "
+                  "extracted scanner is quadratic, so streams above 64 KiB reach only the Go-side search). The 8-byte "
+                  "load through unsafe.Pointer is modelled as the little-endian value of 8 in-range bytes (a load past "
+                  "the slice end is a model Panic, proved not to happen); Go int is an unbounded Z (lengths < 2^62); "
+                  "slices have cap = len. Not modelled: GetParameterSetsFromByteStream's final repacking of the sets "
+                  "into one backing array (totSize / psData; values only -- a wrong totSize shows as a panic in the "
+                  "correspondence and the search). The AVC helpers are still instantiations of the shared loop "
+                  "transcriptions (which are textually the avc code).",
 }
 
 
@@ -61,6 +78,11 @@ def run(ctx):
         "ConvertByteStreamToNaluSample, ConvertSampleToByteStream, ExtractNalusFromByteStream, "
         "GetParameterSetsFromByteStream, ExtractNalusOfTypeFromByteStream, GetFirstAVCVideoNALUFromByteStream, "
         "GetNalusFromSample and the avc/hevc length-field walkers (current /repo text)",
+        "model: coq/c14/C14HevcModel.v is a second hand transcription of hevc/hevc.go and hevc/annexb.go (GetNaluType, "
+        "IsVideoNaluType, FindNaluTypes, FindNaluTypesUpToFirstVideoNalu, ContainsNaluType, IsRAPSample, IsIDRSample, "
+        "HasParameterSets, GetParameterSets, GetParameterSetsFromByteStream, ExtractNalusOfTypeFromByteStream); the driver "
+        "answers every hevc_* case with it",
+        "spec: coq/c14/C14HevcSpec.v two-byte NAL unit header, hevc_unit_type, u_* list functions (written by hand)",
         "spec: coq/c14/C14Spec.v naive_scan / stream / sample / wf_nalu (written by hand)",
         "hook: /repo/avc/verif_c14.go re-exports getStartCodePositions and hasZeroByte (build tag verif)",
     ]
@@ -139,9 +161,12 @@ def run(ctx):
                        "(length <= plen) at every offset of non-zero backgrounds of the listed lengths (all alignments "
                        "mod 8, all word/tail hand-overs), two patterns at once, random small-alphabet strings of length "
                        "0..72; all 24 functions on streams/samples built from 1..6 emulation-free units of 1..120 bytes "
-                       "with any start-code mix and all AVC/HEVC type classes, plus mutated inputs; distinct = distinct "
+                       "(some 250..262) with any start-code mix, every AVC/HEVC type-test boundary (5/6, 15/16, 18..21, "
+                       "23/24, 31/32) and parameter-set-heavy lists (duplicate / absent / late sets), plus mutated inputs; "
+                       "sample walkers also on 64 KiB units; distinct = distinct "
                        "(function,args,input) with non-empty input per batch; search: same input families, oracles = "
-                       "byte-by-byte scan, generating unit list")
+                       "byte-by-byte scan, generating unit list (HEVC type from the 16-bit header), plus units of 64 KiB and "
+                       "16 MiB (witness form gen:<seed>:<hevc>:<size>/<sc>,...)")
 
 
 def replay(ctx, path):
